@@ -26,6 +26,13 @@ def gen_scenarios(rnd: random.Random, count, topos=TOPOS, max_r=4):
                     'delay': [rnd.choice([0, 0, 1, 2]) for _ in range(nr + 1)],
                     'bwait': rnd.choice([0, 1, 2]), 'hop': rnd.random() < 0.5, 'hook': rnd.random() < 0.5,
                     'flavour': rnd.choice(['sync', 'sync', 'async'])})
+        # `nil`: a worker of a FINAL stage whose genuine result for a request is None (a lookup miss, a side-effect call): an
+        # ordinary result value.  Only for requests that fail nowhere (inside an EnsembleError a None slot means "not
+        # reported yet").
+        sc = out[-1]
+        clean = [r for r in range(1, nr + 1) if all(r not in fail[s] and r not in pre[s] for s in stages)]
+        finals = {'single': ['S1'], 'seq': ['S2'], 'ens': ['A', 'B'], 'switch': ['A', 'B']}[topo]
+        sc['nil'] = {s: sorted(r for r in clean if rnd.random() < 0.3) for s in finals}
     return out
 
 
@@ -204,6 +211,25 @@ def _make_scenario(sc):
 
     topo, R = sc['topo'], sc['R']
     fail = {s: set(v) for s, v in sc['fail'].items()}
+    nil = {s: set(v) for s, v in (sc.get('nil') or {}).items()}
+
+    def unnil(r, y):
+        """a None that IS the final stage's result for request r (scenario field `nil`) -> the value that stage would have
+        produced otherwise (the projection to the model's value records knows no None)"""
+        def val(stage):
+            inner = ('in', r)
+            if topo == 'seq':
+                inner = ('S1', inner)
+            return (stage, inner)
+        if topo == 'ens':
+            if isinstance(y, list) and len(y) == 2:
+                return [val(s) if (v is None and r in nil.get(s, ())) else v for s, v in zip(('A', 'B'), y)]
+            return y
+        if y is None:
+            stage = {'single': 'S1', 'seq': 'S2'}.get(topo) or sc['route'][r - 1]
+            if r in nil.get(stage, ()):
+                return val(stage)
+        return y
 
     def make_worker(stage, wid0, batch=0):
         class Wk(Worker):
@@ -220,7 +246,7 @@ def _make_scenario(sc):
                 detsched.emit('WDone', n=wid, reqs=reqs, ok=not bad)
                 if bad:
                     raise ElemError(bad[0], stage)
-                ys = [(stage, v) for v in xs]
+                ys = [(None if req_of(v) in nil.get(stage, ()) else (stage, v)) for v in xs]
                 return ys if batch else ys[0]
 
         if sc.get('pre', {}).get(stage) or sc.get('hook'):
@@ -364,7 +390,7 @@ def _make_scenario(sc):
             qn[id(servlet._qins[0])], qn[id(servlet._qins[1])] = 'ma', 'mb'
 
     def report(r, y):
-        d = decode(y)
+        d = decode(unnil(r, y))
         tb = True
         if d['k'] == 'e':
             # C04: original type (ElemError, checked by decode), original args, and the traceback of the failure site: as
